@@ -14,6 +14,15 @@ THEOREMS = [
     "BSVerif.Props.C03.array_left_partly_read_refuted_before_fix",
     "BSVerif.Props.C03.objReadArr_is_machine",
     "BSVerif.Props.C03.arrReads_is_machine",
+    "BSVerif.Props.C03.binary_left_partly_read_harmless",
+    "BSVerif.Props.C03.binary_left_partly_read_harmless_in_array",
+    "BSVerif.Props.C03.binary_left_partly_read_refuted_before_fix",
+    "BSVerif.Props.C03.objReadBin_is_machine",
+    "BSVerif.Props.C03.binReads_is_machine",
+    "BSVerif.Props.C03.ext_and_timestamp_are_complete_values",
+    "BSVerif.Scope.objReadBin_spec",
+    "BSVerif.Scope.binReads_at",
+    "BSVerif.Scope.binClose_at",
     "BSVerif.Scope.objReadArr_spec",
     "BSVerif.Scope.arrReads_at",
     "BSVerif.Scope.arrCloseLoop_at",
@@ -26,8 +35,10 @@ THEOREMS = [
     "BSVerif.Props.C03.key_compare_is_integer_equality",
     "BSVerif.Scope.VarKey.eqKeyNoGuard_refuted",
 ]
-RULE = ("CSV tables read by column name in any order / twice / absent through both CSV readers; random MsgPack documents (objects with distinct string/int keys; scalar, array and object values, depth <= 3) x request "
-        "histories (reverse/shuffled/partial orders, repeated and absent keys, nested open/partial read/close — array scopes left partly read at any element and followed by further requests on the "
+RULE = ("CSV tables read by column name in any order / twice / absent through both CSV readers; random MsgPack documents (objects with distinct string/int/timestamp keys; scalar — incl. ext values of "
+        "every format fixext1..16/ext8/ext16, timestamps 32/64, integers at the edge of int64 —, `bin` (0/1/5/300 bytes), array and object values, depth <= 3; objects, arrays and `bin` values at the root) x request "
+        "histories (reverse/shuffled/partial orders, repeated and absent keys, nested open/partial read/close — array scopes left partly read at any element, binary scopes read fully / partly / not at all / "
+        "one byte past the end, OpenBinaryScope on values that are not bin, bin values requested as strings, all followed by further requests on the "
         "enclosing scopes —, VisitKeys, sentinel after the object; 8% of the documents cut at a token boundary: correspondence of the deferred-error "
         "path; std::tuple shorter/longer than the array inside a class followed by another field) x {memory, stream} x policies, on the real read scopes; stream documents shifted across the 256-byte cache "
         "boundary; plus CBinaryStreamReader position histories; non-trivial = history with >= 3 requests; distinct = distinct op lines")
